@@ -102,7 +102,7 @@ def parse(out, res):
 
 
 def run(spec, cfg, workers=16, coverage=False, timeout=1800, dump=None, extra=(), env=None,
-        deadlock=None, heap="8g", simulate=None, seed=None, keep_out=False):
+        deadlock=None, heap="8g", simulate=None, seed=None, keep_out=False, cwd=None):
     """spec: module name in specs/; cfg: file name in specs/ or absolute path."""
     meta = tempfile.mkdtemp(prefix="tlcmeta_")
     try:
@@ -119,7 +119,7 @@ def run(spec, cfg, workers=16, coverage=False, timeout=1800, dump=None, extra=()
             args += ["-seed", str(seed)]
         args += list(extra)
         args += [spec + ".tla"]
-        rc, out, wall = _java(args, cwd=SPECS, env=env, timeout=timeout, heap=heap)
+        rc, out, wall = _java(args, cwd=cwd or SPECS, env=env, timeout=timeout, heap=heap)
         res = Result()
         res.wall = wall
         res.out = out
